@@ -115,6 +115,39 @@ def _configs():
         "foo + bar", "(a + bb) > (c + d)", "a > b", "abc",
         "BAD", "a + BAD", "(a + BAD) > c", "(a", "a + (b", "a +", "> a", "a > (b + ", "(a)(b)", "a + (b +)",
     ])
+
+    class Length(AtomBase):
+        """atom whose addition converts the RIGHT operand in place (as the DIP numerical operators do): any reuse of an
+        atom object across solve() calls (a cache) becomes visible"""
+        FACT = {"m": 1.0, "cm": 0.01, "km": 1000.0}
+
+        def __init__(self, value):
+            if isinstance(value, str):
+                num, unit = value.split()
+                self.value, self.unit = float(num), unit
+                if unit not in self.FACT:
+                    raise KeyError("unknown unit " + unit)
+            else:
+                self.value, self.unit = value
+
+        def to(self, unit):
+            self.value = self.value * self.FACT[self.unit] / self.FACT[unit]
+            self.unit = unit
+            return self
+
+        def __add__(self, other):
+            other.to(self.unit)
+            return Length((self.value + other.value, self.unit))
+
+        def __repr__(self):
+            return "Length(%r %s)" % (self.value, self.unit)
+
+    ops4 = {"add": OperatorAdd, "par": OperatorPar}
+    steps4 = [dict(operators=["par"], otype=Otype.ARGS), dict(operators=["add"], otype=Otype.BINARY)]
+    cfg["mutating_atom"] = (lambda: ExpressionSolver(Length, dict(ops4), [dict(s) for s in steps4]), [
+        "1 m + 50 cm", "50 cm", "50 cm + 1 m", "1 m", "(50 cm) + 2 km", "2 km + (1 m + 50 cm)",
+        "1 m +", "1 furlong", "1 m + 1 furlong", "(50 cm", "1 m + (50 cm", "1 m + (50 cm + 1 furlong)", "(1 m)(50 cm)",
+    ])
     return cfg
 
 
@@ -132,6 +165,8 @@ def _val(o):
     if o[0] == "err":
         return o
     v = getattr(o[1], "value", o[1])
+    if hasattr(o[1], "unit"):
+        return ("ok", "Length", repr(o[1]))
     if isinstance(v, float):
         return ("ok", "float", struct.pack(">d", v).hex())
     return ("ok", type(v).__name__, repr(v))
